@@ -468,6 +468,7 @@ type aolAuthMonitor struct {
 	before   string
 	writers  map[string]bool // writers listed before the tx, maintained through the tx's own messages
 	grantsOK map[string]bool
+	topics   map[string]bool // topics existing before the tx, maintained through the tx's own messages
 }
 
 // canonAddr: the account a bech32 string names (lower- and upper-case spellings name the same one); the string itself if
@@ -477,6 +478,15 @@ func canonAddr(s string) string {
 		return "@" + string(a)
 	}
 	return s
+}
+
+func topicExists(x *Exec, owner, topic string) bool {
+	o, err := sdk.AccAddressFromBech32(owner)
+	if err != nil {
+		return false
+	}
+	defer func() { recover() }()
+	return x.C.App.AolKeeper.HasTopic(x.C.Ctx(), aoltypes.TopicCompositeKey{OwnerAddress: o, TopicName: topic})
 }
 
 func writerListed(x *Exec, owner, topic, writer string) bool {
@@ -524,9 +534,16 @@ func (m *aolAuthMonitor) BeforeTx(x *Exec, tx *TxInfo) {
 	m.before = x.dump("aol")
 	m.writers = map[string]bool{}
 	m.grantsOK = map[string]bool{}
+	m.topics = map[string]bool{}
 	for _, pm := range tx.Msgs {
 		if !strings.HasPrefix(pm.Kind, "aol.") {
 			continue
+		}
+		if pm.Kind == "aol.CreateTopic" {
+			m.topics[canonAddr(pm.Args[2])+"|"+pm.Args[0]] = topicExists(x, pm.Args[2], pm.Args[0])
+		}
+		if pm.Kind == "aol.AddWriter" {
+			m.topics[canonAddr(pm.Args[4])+"|"+pm.Args[0]] = topicExists(x, pm.Args[4], pm.Args[0])
 		}
 		if pm.Kind == "aol.AddRecord" || pm.Kind == "aol.AddWriter" || pm.Kind == "aol.DeleteWriter" {
 			var owner, topic, writer string
@@ -577,14 +594,27 @@ func (m *aolAuthMonitor) AfterTx(x *Exec, tx *TxInfo, result string) {
 			if !authorisedBy(x, tx, pm, pm.Args[2], m.grantsOK) {
 				x.Flag("C02-topic-signer", "a topic was created under an address that did not authorise the transaction")
 			}
+			// C15 (atomicity): a message that has to fail must make the whole transaction fail; one that is reported as a
+			// success instead lets the other messages of the transaction take effect
+			if tk := canonAddr(pm.Args[2]) + "|" + pm.Args[0]; m.topics[tk] {
+				x.Flag("C15-atomic-failing-message-accepted", "a CreateTopic for a topic that exists was reported as a success: the transaction was committed although one of its messages had to fail")
+			} else {
+				m.topics[tk] = true
+			}
 		case "aol.AddWriter":
 			if !authorisedBy(x, tx, pm, pm.Args[4], m.grantsOK) {
 				x.Flag("C02-writers-by-owner", "AddWriter accepted without the owner's authorisation")
+			}
+			if !m.topics[canonAddr(pm.Args[4])+"|"+pm.Args[0]] || m.writers[canonAddr(pm.Args[4])+"|"+pm.Args[0]+"|"+canonAddr(pm.Args[3])] {
+				x.Flag("C15-atomic-failing-message-accepted", "an AddWriter for a missing topic or an already listed writer was reported as a success: the transaction was committed although one of its messages had to fail")
 			}
 			m.writers[canonAddr(pm.Args[4])+"|"+pm.Args[0]+"|"+canonAddr(pm.Args[3])] = true
 		case "aol.DeleteWriter":
 			if !authorisedBy(x, tx, pm, pm.Args[2], m.grantsOK) {
 				x.Flag("C02-writers-by-owner", "DeleteWriter accepted without the owner's authorisation")
+			}
+			if !m.writers[canonAddr(pm.Args[2])+"|"+pm.Args[0]+"|"+canonAddr(pm.Args[1])] {
+				x.Flag("C15-atomic-failing-message-accepted", "a DeleteWriter for a writer that is not listed was reported as a success: the transaction was committed although one of its messages had to fail")
 			}
 			m.writers[canonAddr(pm.Args[2])+"|"+pm.Args[0]+"|"+canonAddr(pm.Args[1])] = false
 		case "aol.AddRecord":
